@@ -138,7 +138,11 @@ FStep(G0, ev) ==
                             !.nd[n].cyc = @ + (ev.t - (IF G.it[x].crStamp >= 0 THEN G.it[x].crStamp ELSE G.it[x].cr))]
             ELSE IF packs
             THEN [G1 EXCEPT !.it[x].pl = <<"pal", G.nd[n].cur>>, !.nd[n].last = ev.t]
-            ELSE [G1 EXCEPT !.it[x].pl = <<"node", n>>, !.it[x].unit = TRUE, !.it[x].due = -1, !.it[x].offered = -1, !.it[x].uoff = -1,
+            ELSE [G1 EXCEPT !.it = [y \in 1..Len(@) |->
+                                      IF y = x THEN [@[y] EXCEPT !.pl = <<"node", n>>, !.unit = TRUE, !.due = -1, !.offered = -1, !.uoff = -1]
+                                      \* what a pallet already carries when a combiner takes it was not packed HERE
+                                      ELSE IF ty = "combiner" /\ @[y].pl = <<"pal", x>> THEN [@[y] EXCEPT !.from = 0]
+                                      ELSE @[y]],
                             !.nd[n].held = @ + 1, !.nd[n].cur = x, !.nd[n].last = ev.t,
                             !.nd[n].exp = IF ty = "splitter"
                                           THEN {y \in 1..Len(G.it) : G.it[y].pl = <<"pal", x>>} \cup {x} ELSE @]
@@ -360,7 +364,7 @@ T_C16_Recipe ==
           /\ F.it[q].pal /\ F.it[q].from = 1
           /\ \A i \in 2..Len(Node(n).ins) :
                 Cardinality({x \in Range(e'.pal) : F.it[x].from = i /\ F.it[x].pl = <<"pal", q>>}) = rec[i]
-          /\ \A x \in Range(e'.pal) : F.it[x].pl = <<"pal", q>> /\ F.it[x].from >= 2
+          /\ \A x \in Range(e'.pal) : F.it[x].pl = <<"pal", q>> /\ (F.it[x].from >= 2 \/ F.it[x].from = 0)   \* 0: carried in
           /\ Len(e'.pal) = Cardinality(Range(e'.pal))
           /\ Range(e'.pal) = {x \in 1..Len(F.it) : F.it[x].pl = <<"pal", q>>}]_vars
 T_C16_SplitterEmits ==
